@@ -622,6 +622,19 @@ def io_discipline(prog, chk):
             closes = body.call_sites(lambda c: (c.decl_path == "std::io::Write::flush" or c.path.split("::")[-1] in ("into_inner", "into_parts")) and "BufWriter" in c.inst)
             handed_on = any((body.local_ty(l) or "").startswith("std::io::BufWriter<") for l in body.ret_locals)
             bb, t, c = news[0]
+            # ... or moved, whole, into something else (a serialiser that owns its destination): who flushes is decided there
+            moved = False
+            if t.get("dest") and not t["dest"][1]:
+                for (b2, i2, node, how, _c) in R.forward_value_uses(body, t["dest"][0]):
+                    if i2 == R.TERM and node.get("k") == "call" and how == "arg" and any("m" in a and op_place(a) is not None and not op_place(a)[1] and (body.local_ty(op_place(a)[0]) or "").startswith("std::io::BufWriter<") for a in node.get("args", [])):
+                        cc = Callee(node["fn"]) if "fn" in node else None
+                        if cc is None or cc.path.split("::")[-1] not in ("flush", "into_inner", "into_parts"):
+                            moved = True
+                    elif i2 != R.TERM and "rv" in node and node["rv"].get("k") == "aggr":
+                        moved = True
+            if moved and not closes:
+                chk.undecided("A13.write-discipline", f"{body.short}:buffered-writer", body.where(bb, t.get("line")), "the BufWriter made here is moved into another value; where it is flushed is not followed")
+                continue
             if handed_on:
                 chk.ok("A13.write-discipline", f"{body.short}:buffered-writer", body.where(bb, t.get("line")), "the BufWriter is handed to the caller")
             else:
